@@ -568,7 +568,9 @@ class Path:
         return self.lookup_name(node.id, fr)
 
     def ev_JoinedStr(self, node, fr):
-        return Opaque('fstring')
+        from . import derivedseq   # names built by f-strings (C04)
+        r = derivedseq.try_fstring(self, node, fr)
+        return Opaque('fstring') if r is None else r
 
     def ev_Tuple(self, node, fr):
         out = []
@@ -717,6 +719,9 @@ class Path:
             lo = self.ev(node.slice.lower, fr) if node.slice.lower else None
             hi = self.ev(node.slice.upper, fr) if node.slice.upper else None
             st = self.ev(node.slice.step, fr) if node.slice.step else None
+            if isinstance(v, seqs.SymSeq):   # derived sequences (C04)
+                from . import derivedseq
+                return derivedseq.slice_of(self, v, lo, hi, st)
             if any(is_z3(x) for x in (lo, hi, st)):
                 raise Unsupported('symbolic slice')
             return v[lo:hi:st]
